@@ -2,6 +2,7 @@ import PersimVerif.Lemmas.PNormSup
 import PersimVerif.Lemmas.PNormStab
 import PersimVerif.Lemmas.PNormMink
 import PersimVerif.Lemmas.PNormReal
+import PersimVerif.Lemmas.PNormWf
 import Mathlib.Analysis.SpecialFunctions.Pow.Real
 import Mathlib.Tactic.NormNum
 
@@ -11,8 +12,14 @@ import Mathlib.Tactic.NormNum
 All statements are about `PersimVerif.PNorm` (the model of `_p_norm`, `p_norm`, `sup_norm` of
 `persim/landscapes/{auxiliary,base,exact,approximate}.py`) instantiated at `ℝ`, with `evalPL` of
 `Model/PLBase.lean` as the piecewise-linear function a list of critical points represents.
-Natural `p` only; nothing here is about floating point.  Guard used throughout: strictly increasing
-abscissae (`StrictAbsc`), the class invariant of both landscape classes (`wellFormed` implies it).
+Nothing here is about floating point.  Guards: the basic statements are proved for strictly increasing
+abscissae (`StrictAbsc`; `wellFormed` implies it); the section "the class of C09" at the end restates
+them (`…_wf`) for the class `PLArith.WF` = C09's executable guard `wfDepth` — non-empty, zero first and
+last ordinate, abscissae non-decreasing where a zero-width step repeats the same point — which is what
+C09's operations produce and preserve: it contains `[[b,0],[b,0],[b,0]]` (a bar of zero length) and the
+single point `[(x,0)]` (sum of two such depths), both representations of the zero function.  There a
+zero-width flat segment contributes `|y|^p · 0 = 0` and the `2 ≤ length` hypothesis of the sup norm is
+not needed.
 -/
 namespace PersimVerif.C10
 open PersimVerif.PNorm PersimVerif.PL PersimVerif.PNormLemmas intervalIntegral MeasureTheory
@@ -649,6 +656,146 @@ theorem pnorm_real_triangle (p : ℝ) (hp : 1 ≤ p) (f g h : List (List (ℝ ×
 
 /-- non-vacuity: `p = 5/2` meets `1 ≤ p` -/
 example : (1 : ℝ) ≤ 5 / 2 := by norm_num
+
+/-! ### the class of C09 (`wfDepth`): repeated points and single points -/
+
+open PersimVerif.PLArith in
+/-- C09's executable guard decides the class used below -/
+theorem wf_of_wfDepth (l : List (ℝ × ℝ)) (h : wfDepth l = true) : PLArith.WF l := (wfDepth_iff l).mp h
+
+open PersimVerif.PLArith in
+/-- … and the strict class (`≥ 2` points, strictly increasing abscissae, zero ends) is contained in it -/
+theorem wf_of_wellFormed' (l : List (ℝ × ℝ)) (h : wellFormed l = true) : PLArith.WF l := wf_of_wellFormed l h
+
+
+/-- dropping the repeated points of a list of the class gives strictly increasing abscissae -/
+theorem strictAbsc_of_wf_dedup (l : List (ℝ × ℝ)) (h : PLArith.WF l) : StrictAbsc (dedup l) :=
+  strictAbsc_dedup l h.chain
+
+/-- **pnorm_pow_eq_integral** for C09's class: for natural `p ≥ 1` the accumulated value is
+    `Σ_k ∫_ℝ |λ_k(t)|^p dt` — zero-width segments (repeated points) contribute 0, a single point is the
+    zero function. -/
+theorem pnorm_pow_eq_integral_wf (p : ℕ) (hp : 1 ≤ p) (cps : List (List (ℝ × ℝ)))
+    (hs : ∀ l ∈ cps, PLArith.WF l) :
+    pNormPow p cps = (cps.map fun l => ∫ t, |evalPL l t| ^ p).sum := by
+  rw [← pNormPow_map_dedup, pnorm_pow_eq_integral p hp _ (strict_map_dedup cps hs)]
+  exact sum_integral_map_dedup (fun x => x ^ p) cps hs
+
+/-- the same for every real `p ≥ 1` -/
+theorem pnorm_real_pow_eq_integral_wf (p : ℝ) (hp : 1 ≤ p) (cps : List (List (ℝ × ℝ)))
+    (hs : ∀ l ∈ cps, PLArith.WF l) :
+    pNormPowReal p cps = (cps.map fun l => ∫ t, |evalPL l t| ^ p).sum := by
+  rw [← pNormPowReal_map_dedup, pNormPowReal_eq_integral p hp _ (strict_map_dedup cps hs)]
+  exact sum_integral_map_dedup (fun x => x ^ p) cps hs
+
+/-- **the public method for real `p ≥ 1`** on a landscape of C09's class: validation passes, no
+    `ZeroDivisionError` (a zero-width step repeats the same point, so it takes the flat branch), and the
+    value is the `p`-th root of `Σ_k ∫ |λ_k|^p`. -/
+theorem pNormMethod_real_wf (p : ℝ) (hp : 1 ≤ p) (cps : List (List (ℝ × ℝ))) (hs : ∀ l ∈ cps, PLArith.WF l) :
+    pNormMethod (fun r => r ^ (1 / p)) (fun x => x ^ p) (fun x => x ^ (p + 1))
+        (fun r => -(Real.exp ((p + 1) * Real.log r) - 1)) p cps
+      = .ok (((cps.map fun l => ∫ t, |evalPL l t| ^ p).sum) ^ (1 / p)) := by
+  rw [pNormMethod_accepts _ _ _ _ p hp cps (no_vertical_of_wf cps hs)]
+  have := pnorm_real_pow_eq_integral_wf p hp cps hs
+  unfold pNormPowReal oneSubPowReal at this
+  rw [this]
+
+/-- **`PersLandscapeExact.sup_norm`** for C09's class — no `2 ≤ length` hypothesis: a single point of the
+    class has ordinate 0 and represents the zero function, whose values `{0}` it reproduces. -/
+theorem supNormExact_eq_wf (cps : List (List (ℝ × ℝ))) (hwf : ∀ l ∈ cps, PLArith.WF l)
+    (m : ℝ) (h : supNormExact cps = .ok m) :
+    IsGreatest (absValues cps) m ∧ (⨆ kt : ℕ × ℝ, |evalDepth cps kt.1 kt.2|) = m := by
+  have hspec : m ∈ (cps.flatten.map fun pt => |pt.2|) ∧ ∀ x ∈ (cps.flatten.map fun pt => |pt.2|), x ≤ m := by
+    unfold supNormExact at h
+    have e : (cps.flatten.map fun pt => absA pt.2) = cps.flatten.map fun pt => |pt.2| := by
+      simp only [absA_eq_abs]
+    rw [e] at h
+    cases hp : pyMax (cps.flatten.map fun pt => |pt.2|) with
+    | none => rw [hp] at h; cases h
+    | some m' =>
+      rw [hp] at h
+      injection h with h
+      subst h
+      exact pyMax_spec _ _ hp
+  have hG := isGreatest_absValues_wf cps hwf m hspec.1 hspec.2
+  exact ⟨hG, hG.csSup_eq⟩
+
+/-- triangle inequality for C09's class (natural `p ≥ 1`) -/
+theorem pnorm_triangle_wf (p : ℕ) (hp : 1 ≤ p) (f g h : List (List (ℝ × ℝ)))
+    (hf : ∀ l ∈ f, PLArith.WF l) (hg : ∀ l ∈ g, PLArith.WF l) (hh : ∀ l ∈ h, PLArith.WF l)
+    (hsum : ∀ k t, evalDepth h k t = evalDepth f k t + evalDepth g k t) :
+    (pNormPow p h) ^ ((1 : ℝ) / p) ≤ (pNormPow p f) ^ ((1 : ℝ) / p) + (pNormPow p g) ^ ((1 : ℝ) / p) := by
+  rw [← pNormPow_map_dedup p f, ← pNormPow_map_dedup p g, ← pNormPow_map_dedup p h]
+  apply pnorm_triangle p hp _ _ _ (strict_map_dedup f hf) (strict_map_dedup g hg) (strict_map_dedup h hh)
+  intro k t
+  rw [evalDepth_map_dedup h hh, evalDepth_map_dedup f hf, evalDepth_map_dedup g hg, hsum]
+
+/-- triangle inequality for C09's class (real `p ≥ 1`) -/
+theorem pnorm_real_triangle_wf (p : ℝ) (hp : 1 ≤ p) (f g h : List (List (ℝ × ℝ)))
+    (hf : ∀ l ∈ f, PLArith.WF l) (hg : ∀ l ∈ g, PLArith.WF l) (hh : ∀ l ∈ h, PLArith.WF l)
+    (hsum : ∀ k t, evalDepth h k t = evalDepth f k t + evalDepth g k t) :
+    (pNormPowReal p h) ^ (1 / p) ≤ (pNormPowReal p f) ^ (1 / p) + (pNormPowReal p g) ^ (1 / p) := by
+  rw [← pNormPowReal_map_dedup p f, ← pNormPowReal_map_dedup p g, ← pNormPowReal_map_dedup p h]
+  apply pnorm_real_triangle p hp _ _ _ (strict_map_dedup f hf) (strict_map_dedup g hg) (strict_map_dedup h hh)
+  intro k t
+  rw [evalDepth_map_dedup h hh, evalDepth_map_dedup f hf, evalDepth_map_dedup g hg, hsum]
+
+/-- absolute homogeneity for C09's class (natural `p ≥ 1`; `__mul__` keeps the class) -/
+theorem pnorm_homogeneous_wf (p : ℕ) (hp : 1 ≤ p) (c : ℝ) (cps : List (List (ℝ × ℝ)))
+    (hs : ∀ l ∈ cps, PLArith.WF l) :
+    pNormPow p (scaleCps c cps) = |c| ^ p * pNormPow p cps := by
+  have hs' : ∀ l ∈ scaleCps c cps, PLArith.WF l := by
+    intro l hl
+    obtain ⟨l0, hl0, rfl⟩ := List.mem_map.mp hl
+    exact PLArith.wf_mulDepth c l0 (hs l0 hl0)
+  rw [pnorm_pow_eq_integral_wf p hp _ hs', pnorm_pow_eq_integral_wf p hp cps hs]
+  unfold scaleCps
+  rw [List.map_map, ← List.sum_map_mul_left]
+  congr 1
+  apply List.map_congr_left
+  intro l _
+  simp only [Function.comp, evalPL_scale, abs_mul, mul_pow]
+  rw [MeasureTheory.integral_const_mul]
+
+
+/-- non-vacuity of the `…_wf` statements: the depth a bar of zero length produces, the single point two
+    such depths add up to, and an ordinary sign-changing depth all belong to the class — and the first
+    two are NOT in `StrictAbsc ∧ 2 ≤ length` -/
+example : (∀ l ∈ ([[(1, 0), (1, 0), (1, 0)], [(2, 0)], [(0, 0), (1, 1), (3, -1), (4, 0)]] : List (List (ℝ × ℝ))),
+      PLArith.WF l) ∧ ¬ StrictAbsc ([(1, 0), (1, 0), (1, 0)] : List (ℝ × ℝ)) ∧ ¬ 2 ≤ ([(2, 0)] : List (ℝ × ℝ)).length := by
+  refine ⟨?_, ?_, by simp⟩
+  · intro l hl
+    simp only [List.mem_cons, List.not_mem_nil, or_false] at hl
+    rcases hl with rfl | rfl | rfl
+    · exact ⟨by simp, by intro p hp; simp at hp; rw [← hp], by intro q hq; simp at hq; rw [← hq], by simp⟩
+    · exact ⟨by simp, by intro p hp; simp at hp; rw [← hp], by intro q hq; simp at hq; rw [← hq], by simp⟩
+    · exact ⟨by simp, by intro p hp; simp at hp; rw [← hp], by intro q hq; simp at hq; rw [← hq], by norm_num⟩
+  · intro h
+    have := (List.pairwise_cons.mp h).1 (1, 0) (by simp)
+    simp at this
+
+/-- the model's values on those depths: `_p_norm` accumulates `0` on the two degenerate depths and the
+    exact sup norm is the largest `|y|` -/
+example : pNormPow 2 ([[(1, 0), (1, 0), (1, 0)], [(2, 0)]] : List (List (ℝ × ℝ))) = 0 ∧
+    supNormExact ([[(1, 0), (1, 0), (1, 0)], [(2, 0)], [(0, 0), (1, 1), (3, -3/2), (4, 0)]] : List (List (ℝ × ℝ)))
+      = .ok (3/2) := by
+  constructor
+  · simp [pNormPow, pNormPowGen, accumulate, segTerms, segs, segTerm]
+  · simp [supNormExact, pyMax, absA]; norm_num
+
+/-- non-vacuity of `pnorm_triangle_wf` / `pnorm_real_triangle_wf`: `f` = the depth of a zero-length bar (the zero
+    function, not strictly increasing), `g = h` = a tent: all three are in the class and `h = f + g` pointwise -/
+example : let f : List (List (ℝ × ℝ)) := [[(1, 0), (1, 0), (1, 0)]]
+    let g : List (List (ℝ × ℝ)) := [[(0, 0), (1, 1), (2, 0)]]
+    ∀ k t, evalDepth g k t = evalDepth f k t + evalDepth g k t := by
+  intro f g k t
+  have hf : evalDepth f k t = 0 := by
+    match k with
+    | 0 =>
+      simp only [f, evalDepth, List.getElem?_cons_zero, evalPL]
+      split_ifs <;> simp
+    | k + 1 => simp [f, evalDepth]
+  rw [hf, zero_add]
 
 /-! ### stability of the landscape under a partial matching (the bottleneck clause) -/
 
